@@ -20,7 +20,8 @@ RULE = (
     "case = (grammar of any shape incl. empty language / unproductive start / nullable and unary "
     "cycles, weights Boolean or positive floats mapped through x>0, back-end earley|cky, rule "
     "rotation, renaming); all contexts over V up to the length bound plus contexts containing EOS; "
-    "set(p_next(c)) is compared with {t : c+t can be completed to a string of L.EOS}; non-trivial = "
+    "set(p_next(c)) is compared with {t : c+t can be completed to a string of L.EOS}, once shortest-first "
+    "and a second time longest-first on the same object; non-trivial = "
     "some context has a mask that is neither empty nor all of V+EOS; distinct = SHA-1 of the case"
 )
 ASSUMPTIONS = [
@@ -79,7 +80,9 @@ def check(case, ctx):
             memo[c] = prefix(GE, c)
         return memo[c]
 
-    for c in contexts:
+    # second pass in the opposite order on the same object: the mask of a context must not depend
+    # on the longer (possibly dead) contexts that were queried in between
+    for c in contexts + contexts[::-1]:
         want = {t for t in VE if viable(c + (t,))}
         if 0 < len(want) < len(VE):
             ctx.nontrivial = True
